@@ -1221,3 +1221,34 @@ UNITS["v_kind_merge"] = dict(
              safety_id="C19.union.safety"),
     ],
 )
+
+
+# ------------------------------------------------------------------------------------------------
+# C19: the unknown part of collection kinds under union
+UNK = "src/value/kind/collection/unknown.rs"
+UNITS["v_unknown_merge"] = dict(
+    prop=["C19"], tier="q", prelude=["unknownmerge.rs"], native_witness={"C19": ["kind_union"]},
+    fns=[
+        dict(id="infinite_any", file=UNK, impl="impl Infinite", name="any",
+             orig_sig="fn any() -> Self", wrap=("impl Infinite {", "}"), sig="pub fn any() -> (r: Infinite)",
+             rewrites=[dict(**{"from": "Some(())", "to": "Some(Unit {})", "why": "unit payload"})],
+             ensures=[("C19.infinite_any.admits_all", "the `any` infinite kind admits every value", "forall|v: ElemValue| #[trigger] inf_member(v, r)")],
+             body_start="broadcast use axiom_tags_valid;", safety_id="C19.infinite_any.safety"),
+        dict(id="infinite_merge", file=UNK, impl="impl Infinite", name="merge",
+             orig_sig="fn merge(&mut self, other: Self)", wrap=("impl Infinite {", "}"), sig="pub fn merge(&mut self, other: Infinite)",
+             ensures=[("C19.infinite_merge.contains_both", "merging two infinite kinds admits every value either admits",
+                       "forall|v: ElemValue| (inf_member(v, *old(self)) || inf_member(v, other)) ==> #[trigger] inf_member(v, *final(self))")],
+             safety_id="C19.infinite_merge.safety"),
+        dict(id="infinite_covering", file=UNK, impl="impl Infinite", name="covering",
+             orig_sig="fn covering(self, kind: &Kind) -> Self", wrap=("impl Infinite {", "}"), sig="pub fn covering(self, kind: &Kind) -> (r: Infinite)",
+             rewrites=[dict(**{"from": "Self::any()", "to": "Infinite::any()", "why": "Self"})],
+             ensures=[("C19.infinite_covering.covers", "the widened infinite kind admits every value of the infinite kind and every value of the exact kind",
+                       "forall|v: ElemValue| (inf_member(v, self) || kind_member(v, *kind)) ==> #[trigger] inf_member(v, r)")],
+             safety_id="C19.infinite_covering.safety"),
+        dict(id="unknown_merge", file=UNK, impl="impl Unknown", name="merge",
+             orig_sig="fn merge(&mut self, other: Self, overwrite: bool)", wrap=("impl Unknown {", "}"), sig="pub fn merge(&mut self, other: Unknown, overwrite: bool)",
+             ensures=[("C19.unknown_merge.union_contains_both", "under the union strategy the merged unknown kind admits every element value either operand's unknown kind admits (exact with exact, infinite with infinite, and exact with infinite in both orders)",
+                       "!overwrite ==> forall|v: ElemValue| (unknown_member(v, *old(self)) || unknown_member(v, other)) ==> #[trigger] unknown_member(v, *final(self))")],
+             safety_id="C19.unknown_merge.safety"),
+    ],
+)
